@@ -96,6 +96,14 @@ def guarded_unwrap(I, v, what, msg_prefix):
 # ------------------------------------------------------------------------------------------------ Rc / Box / refs
 
 def m_rc_new(I, fr, a, ck):
+    if I.prov is not None and isinstance(a[0], Adt) and a[0].ty == 'BDD':
+        # provenance mode: ownership of this allocation by the unique table is a fresh Boolean, later constrained to
+        # "an insert of this very allocation was executed"
+        I.fresh_n += 1
+        tok = 'alloc%d' % I.fresh_n
+        r = RcV(a[0], Prov({tok: True}))
+        I.prov['allocs'][tok] = r
+        return r
     return mk_rc(a[0], I.cfg['rc_new_owned'])
 
 
@@ -409,9 +417,13 @@ def m_table_insert(I, fr, a, ck):
     # preservation of the invariant: key == *val (obligation collected by the harness)
     if isinstance(val, RcV):
         I.insert_obligations.append((key, val.inner))
-        sink = I.cfg.get('owned_sink')
-        if sink is not None:
-            sink.append(val)
+        if I.prov is not None:
+            # the inserted allocation becomes table-owned under the (function-relative) guard of this insert
+            ow = val.owned
+            if isinstance(ow, Prov):
+                for tok, g in ow.alts.items():
+                    if tok != 'T':
+                        I.prov['inserted'][tok] = gor(I.prov['inserted'].get(tok, False), gand(I.cur_guard, g))
     else:
         raise EngineError('table value is %s' % type(val).__name__)
     return NONE
